@@ -2,6 +2,7 @@ package main
 
 import (
 	"github.com/6tail/lunar-go/calendar"
+	"sort"
 )
 
 var c07Boundary = []int{1, 2, 4, 8, 15, 16, 18, 19, 23, 24, 100, 236, 237, 239, 240, 1500, 1582, 1583, 1600, 1900, 2000, 2020, 2033, 2034, 2100, 9997, 9998}
@@ -101,6 +102,12 @@ func c07Lunar(c *ctx) {
 		for m := -12; m <= 13; m++ {
 			for _, d := range []int{1, 15, 29, 30} {
 				var l *calendar.Lunar
+				// a conversion of an early-January day of civil year y (which belongs to lunar year y-1 and is resolved
+				// through the same year table) right before the constructor: it must not matter
+				try(func() {
+					s, _ := safeSolar(y, 1, 2+(m+12)%9, 12, 0, 0)
+					s.GetLunar()
+				})
 				p, _ := try(func() { l = calendar.NewLunar(y, m, d, 7, 8, 9) })
 				if p {
 					continue
@@ -120,6 +127,49 @@ func c07Lunar(c *ctx) {
 		f["t"] = t
 		c.emit(f)
 	}
+	// the turn of the year in and after every year of the library's leap-11 / leap-12 tables (where the table of
+	// a year and the table of the next one are built by different rules): the civil day's lunar triple is accepted
+	// by the constructor and leads back to the same civil day
+	tys := []int{}
+	for _, tab := range [][]int{calendar.LEAP_11, calendar.LEAP_12} {
+		for _, t := range tab {
+			if t >= 1 && t <= 9997 {
+				tys = append(tys, t)
+			}
+		}
+	}
+	sort.Ints(tys)
+	rows := [][]int{}
+	flush := func() {
+		if len(rows) > 0 {
+			c.emit(obj{"ev": "C07Trip", "rows": rows})
+			rows = [][]int{}
+		}
+	}
+	for _, t := range tys {
+		if !c.mine(t) {
+			continue
+		}
+		for _, ymd := range [][3]int{{t, 12, 20}, {t, 12, 31}, {t + 1, 1, 1}, {t + 1, 1, 15}, {t + 1, 1, 29}, {t + 1, 2, 12}} {
+			s, bad := safeSolar(ymd[0], ymd[1], ymd[2], 12, 0, 0)
+			if bad {
+				continue
+			}
+			row := []int{ymd[0], ymd[1], ymd[2]}
+			p, _ := try(func() {
+				l := s.GetLunar()
+				row = append(row, l.GetYear(), l.GetMonth(), l.GetDay())
+				b := calendar.NewLunar(l.GetYear(), l.GetMonth(), l.GetDay(), 12, 0, 0).GetSolar()
+				row = append(row, b.GetYear(), b.GetMonth(), b.GetDay())
+			})
+			row = append(row, b2i(p))
+			rows = append(rows, row)
+		}
+		if len(rows) >= 120 {
+			flush()
+		}
+	}
+	flush()
 }
 
 // applyOp executes one chain operation on a civil cursor (shared by C04/C07 chains)
